@@ -218,6 +218,41 @@ def rule_idsrc(filter_names=None):
                             clean = False
                             o.check(False, pretty, "positional-by-vertex",
                                     "storage of length order() is indexed by a vertex id", ev["span"])
+            # (e) the numbers of vertices of two AdjacencyMaps are compared to decide something about their vertex SETS
+            for ev in an.events:
+                if ev["k"] != "switch":
+                    continue
+                d_ = ev["discr"]
+                if d_[0] == "un" and d_[1] == "Not":
+                    d_ = d_[2]
+                if d_[0] == "bin" and d_[1] in ("Lt", "Le", "Eq", "Ne") and all(
+                        x[0] == "len" and x[1][0] == "at" and isinstance(x[1][1], str) and x[1][1].endswith(".arcs") for x in (d_[2], d_[3])) \
+                        and {d_[2][1][1].split(".")[0], d_[3][1][1].split(".")[0]} == {"A1", "A2"}:
+                    # .. and on one side the result is produced without looking at the rows / keys of one operand
+                    def looks_at(reach, opnd):
+                        def m(t):
+                            if isinstance(t, tuple) and t:
+                                if t[0] in ("at", "addr", "mem") and isinstance(t[1], str) and t[1].startswith(opnd + ".arcs"):
+                                    return True
+                                return any(m(x) for x in t if isinstance(x, tuple))
+                            return False
+                        for e2 in an.events:
+                            if e2["b"] in reach and e2["k"] == "call" and e2["key"] and not e2["key"].startswith("alloc::collections::btree::map::BTreeMap::len") \
+                                    and any(m(a) for a in e2["args"]):
+                                return True
+                        return False
+                    blind = False
+                    for tg, lab in an.cfg.succ[ev["b"]]:
+                        if tg not in an.cfg.can_return:
+                            continue
+                        reach = an.cfg.reachable_from(tg) | {tg}
+                        if not (looks_at(reach, "A1") and looks_at(reach, "A2")):
+                            blind = True
+                    if not blind:
+                        continue
+                    clean = False
+                    o.check(False, pretty, "order-compared-as-vertex-set", "the orders of two AdjacencyMaps are compared: |V(E)| <= |V(D)| says "
+                            "nothing about V(E) being within V(D) when the vertex ids need not be 0..order", ev["span"])
             if clean:
                 o.check(True, pretty, "no-count-as-id", "")
         return o.report(floors={"AdjacencyMap &self methods": (o.instances, 20 if filter_names is None else 2)})
@@ -1511,6 +1546,36 @@ def rule_er_draw(crate, prop, tier):
                                 good = False
                 o.check(good, pretty, "draw-strictly-below-p", "a draw of next_f64() is not used exactly as `draw < p`: the extremes p = 0 "
                         "(no arcs) and p = 1 (all arcs) are no longer guaranteed", ev["span"])
+        # the heads of row u are all vertices but u: in `(0..a).chain(a + 1..n)` the skipped vertex a is the row variable
+        # (a closure parameter or a loop item), not a value that is fixed while the rows vary
+        from .origin import payload_of as _pl
+        for bp in bodies:
+            an = crate.an(bp)
+            for ev in an.events:
+                if ev["k"] != "call" or not ev["key"] or not ev["key"].endswith("Iterator::chain") or len(ev["args"]) != 2:
+                    continue
+                r1, r2 = ev["args"]
+                if not (r1[0] == "agg" and r1[1] == "adt" and r1[2][1] == "Range" and r2[0] == "agg" and r2[1] == "adt" and r2[2][1] == "Range"):
+                    continue
+                a_ = r1[3][1]
+                lo2 = r2[3][0]
+                if not (r1[3][0] == ("const", "usize", 0) and lo2[0] == "bin" and lo2[1] == "Add" and a_ in (lo2[2], lo2[3])):
+                    continue
+                captured = (a_[0] == "field" and a_[1] == ("arg", 1)) or (a_[0] == "mem" and isinstance(a_[1], str) and a_[1].startswith("A1."))
+                rowvar = a_ == ("arg", 2) or (a_[0] == "field" and a_[1] == ("arg", 2)) or _pl(a_)[0] is not None or \
+                    (a_[0] == "mem" and isinstance(a_[1], str) and a_[1].startswith("A2"))
+                if captured and not rowvar and crate.prog.fns[bp]["kind"] == "Closure":
+                    # a capture of the parent's row variable is a row variable
+                    cm_ = capture_map(crate, an)
+                    pvals = [pv for pv, cv in (cm_.valmap if cm_ else []) if cv == a_]
+                    if any(pv == ("arg", 2) or (pv[0] == "field" and pv[1] == ("arg", 2)) or _pl(pv)[0] is not None
+                           or (pv[0] in ("addr", "at") and any(_pl(v_)[0] is not None or v_ == ("arg", 2)
+                                                              for (var, ver), v_ in cm_.pan.term_of.items() if var == pv[1]))
+                           for pv in pvals):
+                        continue
+                    o.check(False, pretty, "row-heads-skip-the-row", "the heads of a row are drawn from (0..a).chain(a + 1..n) where a is a value "
+                            "captured by the worker, not the row being filled: rows other than a can receive themselves as head "
+                            "(a self-loop) and never receive a", ev["span"])
         if draws == 0 and not delegates:
             if other_draws:
                 o.check(False, pretty, "draw-is-next-f64", "arcs are decided by raw draws (%s) instead of `next_f64() < p`: a threshold "
